@@ -31,3 +31,32 @@ claim("C06", "product enumeration of one-shot AEAD shapes plus explicit-state BF
 claim("C07", "bounded-exhaustive mutation enumeration (every tag/nonce/key bit, boundary bits of CT/AAD, truncation, extension, boundary moves, swaps) through three decrypt interfaces with computed verdicts",
       "For every base shape each mutation is decided by the one-shot and two incremental decryptors; the expected verdict is computed from the model tag of exactly the supplied inputs.",
       "Trusts the python AEAD model; long inputs are bit-flipped only at first/last/16-byte-boundary bytes.", "DESIGN.md section 3 C07")
+
+claim("C08", "bounded-exhaustive enumeration of 23 digest instantiations x key lengths x message lengths x chunkings (2-splits, all depth-3 chunk sequences) on the real Hmac vs RFC 2104 model",
+      "The product of boundary key lengths {0,1,B-1,B,B+1,2B+5}, message lengths and chunkings is executed for every legacy digest type incl. BLAKE2 with several output sizes.",
+      "Trusts the reference hashes and the RFC 2104 construction (cross-checked with python's hmac for 12 digests).", "DESIGN.md section 3 C08")
+claim("C09", "explicit-state BFS over lifecycle histories {input, result, raw_result, reset, clone, inherent BLAKE2 resets} of real MAC and legacy digest objects vs a lifecycle automaton",
+      "Every letter sequence to depth 3/4 with up to two objects, and graph exploration to frontier-empty within 4 blocks and 2 resets, for Hmac over 8/21 digests, Poly1305, "
+      "keyed BLAKE2 through Mac and Digest, and all 16 fixed legacy digests; result-of-clone is checked in every state.",
+      "A repeated result may repeat or panic; histories end at a panic; reference MAC/hash models as before.", "DESIGN.md section 3 C09")
+claim("C10", "bounded-exhaustive parameter-product enumeration for HKDF / PBKDF2 / scrypt one-step programs vs RFC 5869 model, hashlib.pbkdf2_hmac, hashlib.scrypt; refusal boundaries enumerated",
+      "Every listed (digest, salt, IKM, info, L), (PRF, c, dkLen, password, salt) and every scrypt (log2N 1..10, r 1..8, p 1..4, dkLen) tuple is executed; over-limit requests and "
+      "RFC 7914 constraint boundaries must panic.",
+      "Trusts hashlib (OpenSSL) for PBKDF2/scrypt and the validated HKDF model.", "DESIGN.md section 3 C10")
+claim("C11", "bounded-exhaustive parameter-product enumeration of Argon2 one-step programs vs python RFC 9106 model",
+      "type x version x t 1..4 x p 1..5 x memory set (incl. non-multiples of 4p and segment length > 128) x every tag length 4..300 x input-length shapes, both entry points, setter boundaries.",
+      "Trusts the python Argon2 model (RFC 9106 vectors + 42 OpenSSL cross vectors incl. v0x10, p=1, segment length 130).", "DESIGN.md section 3 C11")
+claim("C12", "full product enumeration of boundary scalars (every single-bit scalar) x boundary u-coordinates (non-canonical, small-order, top bit) on the real ladder vs RFC 7748 python",
+      "All enumerated (scalar, u) pairs through curve25519, x25519::dh, the fixed-base functions, exchange agreement and the RFC 7748 1/1000-iteration vectors.",
+      "Trusts the python ladder (RFC + OpenSSL vectors); values outside the enumerated set are not covered.", "DESIGN.md section 3 C12")
+claim("C13", "bounded-exhaustive enumeration of seeds x message lengths (every length 0..=300) for keypair/sign/sign_extended/extended_to_public/exchange vs RFC 8032 python",
+      "Every message length 0..=300 and the block-boundary lengths for all seeds; signatures, key layout, extended-key equivalence and the Ed25519->X25519 exchange are compared byte for byte.",
+      "Trusts the python RFC 8032 model (RFC vectors + 15 OpenSSL signatures).", "DESIGN.md section 3 C13")
+claim("C14", "bounded-exhaustive mutation and adversarial-input enumeration for ed25519::verify with the verdict computed from the statement in python",
+      "All 512 signature bits, 256 key bits, message bits, every S+kL below 2^256, small-order / non-canonical / non-point keys and R, crafted small-order triples satisfying the "
+      "cofactorless equation (108 accepting cases in the quick tier).",
+      "Permissive point decoding as in ref10; trusts python point arithmetic.", "DESIGN.md section 3 C14")
+claim("C15", "grammar-bounded enumeration of field-expression programs (depth 2/3), scalar boundary sets (every 2^i), every single-nibble base-point scalar, all boundary scalar pairs x 14 points for the double-scalar routine, all point pairs for the group law",
+      "Programs for field/scalar/group stack machines are enumerated exhaustively within the stated grammar depth and alphabets and executed on the public arithmetic types; "
+      "every GE_BASE and BI table entry is reached. Ge::from_bytes returning -P is a recorded known finding.",
+      "Trusts python integer arithmetic; operands >= 2^255 not generated.", "DESIGN.md section 3 C15")
